@@ -115,7 +115,21 @@ class Concretizer(object):
                 self.todo.append((name, ty.cls, e))
             return {"ref": name}
         if isinstance(ty, TAbs):
-            return {"abs": str(m.eval(t, model_completion=True)), "sort": ty.name}
+            e = m.eval(t, model_completion=True)
+            out = {"abs": str(e), "sort": ty.name}
+            if ty.ordered:
+                # rank of the value in the model's total order (native replay uses the rank as the value)
+                try:
+                    uni = m.get_universe(sort(ty)) or []
+                    le = z3.Function("le_" + ty.name, sort(ty), sort(ty), z3.BoolSort())
+                    def below(x):
+                        return sum(1 for u in uni if (not u.eq(x)) and
+                                   z3.is_true(m.eval(le(u, x), model_completion=True)))
+                    order = sorted(uni, key=lambda x: (below(x), str(x)))
+                    out["rank"] = [str(x) for x in order].index(str(e))
+                except Exception:
+                    pass
+            return out
         if ty == TERM:
             from . import termadt
             return termadt.concretize_term(m, t)
